@@ -296,17 +296,23 @@ Qed.
 Lemma reach_props : forall redir, check_all reach0 (p_all redir) = true.
 Proof. intros redir. vm_cast_no_check (eq_refl true). Qed.
 
+Global Opaque reach0.
+
 (** ** Lifting to every input sequence *)
 
 Section Lift.
 Variable redir : option N.
 
-Lemma nxt_in_reach x i : In x reach0 -> In (nxt redir x i) reach0.
+Lemma closed_b_spec (R : list st) :
+  closed_b redir R = true -> forall x i, In x R -> In (nxt redir x i) R.
 Proof.
-  intros Hx. pose proof (reach_closed redir) as H. unfold closed_b in H.
+  unfold closed_b; intros H x i Hx.
   rewrite forallb_forall in H. specialize (H x Hx).
   rewrite forallb_forall in H. apply mem_In, H, all_inputs_complete.
 Qed.
+
+Lemma nxt_in_reach x i : In x reach0 -> In (nxt redir x i) reach0.
+Proof. exact (closed_b_spec reach0 (reach_closed redir) x i). Qed.
 
 Lemma local x i : In x reach0 -> p_all redir x i = true.
 Proof. intros Hx. exact (check_all_spec _ _ (reach_props redir) x i Hx). Qed.
@@ -383,8 +389,9 @@ Proof.
   destruct (mon_run m (evs redir x i)) as [m1|] eqn:E1; [|contradiction].
   apply IH; [apply nxt_in_reach, Hx|].
   (* m1 ~ m2 ~ mon_of next *)
+  clear - A L.
   destruct m1 as [[|] [|]], m2 as [[|] [|]], (mon_of (nxt redir x i)) as [[|] [|]];
-    cbn in *; try discriminate; reflexivity.
+    cbn in A, L |- *; try discriminate; reflexivity.
 Qed.
 
 End Lift.
@@ -418,7 +425,7 @@ Lemma answered_or_requeued_proof :
 Proof.
   intros redir h2 history x.
   assert (Hx : In x reach0) by (apply run_st_in_reach, init_in_reach).
-  repeat split.
+  split; [|split; [|split]].
   - pose proof (local redir x IFrontTimeout Hx) as L. apply split_p_all in L.
     destruct L as (_ & _ & _ & _ & _ & L & _). exact L.
   - intros i Hi Hs Hc Hb.
@@ -495,10 +502,8 @@ Lemma connect_failure_status_proof :
 Proof.
   intros redir s c k Hs Hc Ha.
   destruct s as [ss att fc ph bc pe ka og dn cl], c as [h2 iw ew ft bt clo]; cbn in Hs, Hc, Ha; subst.
-  unfold evs, step; cbn.
-  destruct (Nat.leb_spec 3 att) as [H|_]; [exfalso; apply (Nat.lt_irrefl att), (Nat.lt_le_trans _ _ _ Ha H)|].
-  destruct k; try reflexivity.
-  destruct redir; reflexivity.
+  destruct att as [|[|[|att]]]; [ | | | exfalso; lia ];
+    destruct k; destruct redir; vm_compute; reflexivity.
 Qed.
 
 Lemma no_truncated_as_complete_proof :
@@ -516,24 +521,20 @@ Proof.
   assert (Hx : In x reach0) by (apply run_st_in_reach, init_in_reach).
   pose proof (local redir x i Hx) as L. apply split_p_all in L.
   destruct L as (_ & L1 & L2 & L3 & _).
-  repeat split.
+  split; [|split].
   - intros H. unfold p_relay_clean, has_ev in L1. rewrite H in L1. exact L1.
   - intros H1 H0. unfold p_clean_source in L2. rewrite H1, H0 in L2. cbn in L2.
     destruct i; try discriminate L2; auto.
     right; split; [reflexivity|]. destruct (s_ka (fst x)); [discriminate L2 | reflexivity].
-  - intros -> Hs Hk Hc Hp. unfold p_truncated in L3. rewrite Hs, Hk, Hc in L3.
-    unfold has_ev in L3.
-    destruct Hp as [Hp|[Hp|Hp]]; rewrite Hp in L3; cbn in L3;
-      apply andb_true_iff in L3 as [L3 _]; apply andb_true_iff in L3 as [L3 _]; exact L3.
-  - intros -> Hs Hk Hc Hp. unfold p_truncated in L3. rewrite Hs, Hk, Hc in L3.
-    unfold has_ev in L3.
-    destruct Hp as [Hp|[Hp|Hp]]; rewrite Hp in L3; cbn in L3;
-      apply andb_true_iff in L3 as [L3 _]; apply andb_true_iff in L3 as [_ L3];
-      apply negb_true_iff in L3; exact L3.
-  - intros -> Hs Hk Hc Hp. unfold p_truncated in L3. rewrite Hs, Hk, Hc in L3.
-    destruct Hp as [Hp|[Hp|Hp]]; rewrite Hp in L3; cbn in L3;
-      apply andb_true_iff in L3 as [_ L3];
-      destruct (s_phase (fst (nxt redir x IBackClose))); (reflexivity || discriminate).
+  - intros -> Hs Hk Hc Hp. unfold p_truncated, has_ev in L3. rewrite Hs, Hk, Hc in L3.
+    assert (E : existsb is_abort (evs redir x IBackClose)
+                && negb (existsb is_relay_end (evs redir x IBackClose))
+                && match s_phase (fst (nxt redir x IBackClose)) with PError => true | _ => false end = true)
+      by (destruct Hp as [Hp|[Hp|Hp]]; rewrite Hp in L3; exact L3).
+    clear L3. apply andb_true_iff in E as [E E3]. apply andb_true_iff in E as [E1 E2].
+    apply negb_true_iff in E2.
+    split; [exact E1 | split; [exact E2 |]].
+    destruct (s_phase (fst (nxt redir x IBackClose))); (reflexivity || discriminate).
 Qed.
 
 Lemma bounded_wait_proof :
